@@ -31,6 +31,19 @@ Theorem C18_helpers_rejected_or_inlined :
 Proof. intros mname en names fuel e. exact (convertE_rejected_or_inlined path_ok str_args path_early mname en names fuel e). Qed.
 Print Assumptions C18_helpers_rejected_or_inlined.
 
+(* the same with the hypotheses decided by computation (this is what the correspondence run evaluates on the annotations go/types
+   produced): if the boolean checks succeed, the conversion with helpers is rejected or IS the conversion of the inlined filter *)
+Theorem C18_helpers_checked :
+  forall mname en names fuel e, env_okb names en = true -> ncb names e = true ->
+  gen_convertE mname en fuel e = None \/
+  exists e', gen_inline mname en fuel e = Some e' /\ (consistentb path_ok e' = true -> gen_convert fuel e' = gen_convertE mname en fuel e).
+Proof.
+  intros mname en names fuel e He Hn.
+  destruct (C18_helpers_rejected_or_inlined mname en names fuel e (env_okb_sound names en He) (ncb_sound names e Hn)) as [H|(e' & Hi & Hc)];
+    [now left|right]. exists e'. split; [assumption|]. intros Hb. apply Hc. now apply consistentb_sound.
+Qed.
+Print Assumptions C18_helpers_checked.
+
 (* without helpers in scope the conversion is the plain one *)
 Theorem C18_no_helpers_plain : forall mname fuel e, gen_convertE mname [] fuel e = gen_convert fuel e.
 Proof. exact (convertE_nil path_ok str_args path_early). Qed.
@@ -87,7 +100,7 @@ Definition ex_file := [mkGroup "m" [GDef ex_f1; GRule (ECall None (EIdent None "
 Example ex_groups : gen_conv_groups 20 gen_reset_per_group [] ex_file =
   [[Some (FOp "Pure" "x" [] [])];
    [Some (FBin "||" (FBin "==" (FOp "Type.Size" "x" [] []) (FInt 8)) (FOp "Const" "x" [] []))]] /\ file_verdict ex_file = 1.
-Proof. vm_compute. split; reflexivity. Qed.
+Proof. vm_compute. repeat split; reflexivity. Qed.
 Example ex_env_ok : env_ok [ex_f2; ex_g2] ["f"; "g"; "v"; "n"; "w"].
 Proof.
   unfold env_ok. repeat (apply Forall_cons || apply Forall_nil); (split; [|split]); cbn; try (intuition congruence).
